@@ -14,7 +14,9 @@ import (
 
 // Op is one cache call. Kind: G GetOrCreate, R Remove, C Clear.
 // O1/O2 script the create callback for the first / second creation inside
-// the call: 0 ok(fresh) 1 fail 2 ok(expired item; ExpirableCache only).
+// the call: 0 ok(fresh) 1 fail 2 ok(expired item; ExpirableCache only) 3 ok(item that expires in the year 3000)
+// 4 ok(item that expired in the year 1000) 5 ok, and the create function calls Remove(another key) on the same
+// cache before it returns 6 ok, and the create function calls Clear() before it returns.
 type Op struct {
 	K      byte
 	Key    int
@@ -70,15 +72,18 @@ type Sys struct {
 
 // inner maps an outer key to the inner key (ECache: two outer keys per inner key).
 func (s *Sys) inner(pk int) int {
-	if s.Kind == "ecache" {
+	if s.Kind == "ecache" || s.Kind == "ecacheptr" {
 		return pk / 2
 	}
 	return pk
 }
 
+// nestedKey is the key a create function with outcome 5 removes: the next outer key (cyclically).
+func (s *Sys) nestedKey(pk int) int { return (pk + 1) % s.OuterKeys() }
+
 // OuterKeys is the outer key universe.
 func (s *Sys) OuterKeys() int {
-	if s.Kind == "ecache" {
+	if s.Kind == "ecache" || s.Kind == "ecacheptr" {
 		return s.Keys * 2
 	}
 	return s.Keys
@@ -120,6 +125,30 @@ func (f ecacheFront) Stats() (int, int, int, int, []string, string, int) {
 func (f ecacheFront) FirstCost() int  { return lru.VerifFirstCost(f.c) }
 func (f ecacheFront) Order() []string { return lru.VerifOrder(f.c) }
 
+// ptrFront: ECache with a NON-comparable, mutable primary key (a pointer to a buffer the caller reuses after
+// the call): what the cache stored must keep working although the key object's content changed meanwhile.
+type box struct{ v int }
+
+type ptrFront struct {
+	c    *lru.ECache[*box, int, int]
+	orig map[*box]int
+}
+
+func (f ptrFront) GetOrCreate(pk int) (int, bool, error) {
+	b := &box{pk}
+	f.orig[b] = pk
+	v, err := f.c.GetOrCreate(b)
+	b.v = 1_000_000 + pk // the caller reuses its key buffer
+	return v, false, err
+}
+func (f ptrFront) Remove(pk int) bool { return f.c.Remove(&box{pk}) }
+func (f ptrFront) Clear() int         { return f.c.Clear() }
+func (f ptrFront) Stats() (int, int, int, int, []string, string, int) {
+	return lru.VerifItems(f.c)
+}
+func (f ptrFront) FirstCost() int  { return lru.VerifFirstCost(f.c) }
+func (f ptrFront) Order() []string { return lru.VerifOrder(f.c) }
+
 type expFront struct {
 	c *lru.ExpirableCache[int, item]
 }
@@ -154,8 +183,15 @@ func New(kind string, capa, keys int) *Sys {
 			return 0, o, errCreate
 		}
 		s.serial++
-		s.calls = append(s.calls, call{"create", pk, s.serial})
-		return s.serial, o, nil
+		mine := s.serial
+		s.calls = append(s.calls, call{"create", pk, mine})
+		switch o {
+		case 5: // re-entrant use from inside the create function (the cache does not hold its mutex here)
+			s.front.Remove(s.nestedKey(pk))
+		case 6:
+			s.front.Clear()
+		}
+		return mine, o, nil
 	}
 	switch kind {
 	case "cache":
@@ -170,12 +206,26 @@ func New(kind string, capa, keys int) *Sys {
 			panic(err)
 		}
 		s.front = ecacheFront{c}
+	case "ecacheptr":
+		orig := map[*box]int{}
+		c, err := lru.NewECache[*box, int, int](capa, func(b *box) int { return b.v / 2 },
+			func(b *box) (int, error) { v, _, e := create(orig[b]); return v, e },
+			func(b *box, v int) { s.calls = append(s.calls, call{"delete", orig[b], v}) })
+		if err != nil {
+			panic(err)
+		}
+		s.front = ptrFront{c, orig}
 	case "expirable":
 		c, err := lru.NewExpirableCache[int, item](capa, func(k int) (item, error) {
 			v, o, e := create(k)
 			exp := time.Now().Add(time.Hour)
-			if o == 2 {
+			switch o {
+			case 2:
 				exp = time.Now().Add(-time.Hour)
+			case 3:
+				exp = time.Date(3000, 1, 1, 0, 0, 0, 0, time.UTC) // "never": far beyond the range of UnixNano
+			case 4:
+				exp = time.Date(1000, 1, 1, 0, 0, 0, 0, time.UTC)
 			}
 			return item{v, exp}, e
 		}, func(k int, it item) { s.calls = append(s.calls, call{"delete", k, it.v}) })
@@ -214,14 +264,28 @@ func (s *Sys) modelGet(pk int, script *[]int, serial *int, exp *[]call) (v int, 
 		return 0, false, true
 	}
 	*serial++
-	*exp = append(*exp, call{"create", pk, *serial})
-	s.model = append(s.model, ent{k, pk, *serial, o == 2})
+	mine := *serial
+	*exp = append(*exp, call{"create", pk, mine})
+	switch o {
+	case 5:
+		if i := s.find(s.inner(s.nestedKey(pk))); i >= 0 {
+			e := s.model[i]
+			s.model = append(s.model[:i:i], s.model[i+1:]...)
+			*exp = append(*exp, call{"delete", e.pk, e.v})
+		}
+	case 6:
+		for _, e := range s.model {
+			*exp = append(*exp, call{"delete", e.pk, e.v})
+		}
+		s.model = nil
+	}
+	s.model = append(s.model, ent{k, pk, mine, o == 2 || o == 4})
 	if len(s.model) > s.Cap {
 		old := s.model[0]
 		s.model = s.model[1:]
 		*exp = append(*exp, call{"delete", old.pk, old.v})
 	}
-	return *serial, o == 2, false
+	return mine, o == 2 || o == 4, false
 }
 
 // Apply runs the op on the real cache and on the model and compares results and callbacks.
@@ -309,6 +373,16 @@ func (s *Sys) Apply(o Op) (sig, detail string) {
 	return "", ""
 }
 
+// OverCapacity reports whether the cache holds more entries than its capacity (C11: bounded by the capacity
+// however long the history is), independent of any functional disagreement with the model.
+func (s *Sys) OverCapacity(o Op) (sig, detail string) {
+	_, _, _, length, _, dump, _ := s.front.Stats()
+	if length > s.Cap {
+		return s.Kind + " capacity", fmt.Sprintf("%s cap=%d after %v: the cache holds %d entries (%s)", s.Kind, s.Cap, o, length, dump)
+	}
+	return "", ""
+}
+
 // Retention is the C11 oracle: nothing beyond live entries (+sentinel) stays reachable.
 func (s *Sys) Retention(o Op) (sig, detail string) {
 	nodes, deleted, refd, length, _, dump, _ := s.front.Stats()
@@ -335,14 +409,14 @@ func (s *Sys) Key() string {
 // Alphabet enumerates the ops for this front-end.
 func (s *Sys) Alphabet() []Op {
 	var ops []Op
-	outs := []int{0, 1}
+	outs := []int{0, 1, 5, 6}
 	if s.Kind == "expirable" {
-		outs = []int{0, 1, 2}
+		outs = []int{0, 1, 2, 3, 4}
 	}
 	for pk := 0; pk < s.OuterKeys(); pk++ {
 		for _, o1 := range outs {
-			if s.Kind == "expirable" && o1 == 2 {
-				for _, o2 := range outs {
+			if s.Kind == "expirable" && (o1 == 2 || o1 == 4) {
+				for _, o2 := range []int{0, 1, 2} {
 					ops = append(ops, Op{'G', pk, o1, o2})
 				}
 			} else {
